@@ -1306,6 +1306,14 @@ def install_models(I):
     M["core::slice::[T]::last_mut"] = last
     M["core::slice::[T]::first"] = lambda I, a, f: (some(slice_of(I, a[0]).at(0)) if slice_of(I, a[0]).len else none())
 
+    M["core::option::Option::is_some"] = lambda I, a, f: isinstance(deref(a[0]), Agg) and deref(a[0]).variant == "Some"
+    M["core::option::Option::is_none"] = lambda I, a, f: isinstance(deref(a[0]), Agg) and deref(a[0]).variant == "None"
+    M["core::result::Result::is_ok"] = lambda I, a, f: isinstance(deref(a[0]), Agg) and deref(a[0]).variant == "Ok"
+    M["core::result::Result::is_err"] = lambda I, a, f: isinstance(deref(a[0]), Agg) and deref(a[0]).variant == "Err"
+    M["core::num::usize::next_power_of_two"] = lambda I, a, f: (1 << (a[0] - 1).bit_length() if a[0] > 0 else 1) if isinstance(a[0], int) else Term("next_power_of_two", a[0])
+    M["core::num::u32::next_power_of_two"] = M["core::num::usize::next_power_of_two"]
+    M["core::num::u64::next_power_of_two"] = M["core::num::usize::next_power_of_two"]
+
     def opt_unwrap(I, a, f):
         o = a[0]
         if isinstance(o, Agg) and o.variant in ("Some", "Ok"):
